@@ -334,7 +334,9 @@ fn main() {
     quiet_panics();
     let path = std::env::args().nth(1).expect("corpus path");
     let text = std::fs::read_to_string(&path).expect("read corpus");
-    let mut out = String::new();
+    use std::io::Write;
+    let stdout = std::io::stdout();
+    let mut so = stdout.lock();
     for line in text.lines() {
         if !line.starts_with("q ") { continue; }
         let parts: Vec<&str> = line.split(' ').collect();
@@ -342,12 +344,14 @@ fn main() {
         let k: usize = parts[2].parse().unwrap();
         let kind = parts[3];
         let args = &parts[4..];
+        // one answer per line, written at once: when an observer does not terminate, the harness knows which query it was
         if let Some(obs) = dispatch(k, kind, args) {
+            let mut out = String::with_capacity(n.len() + obs.len() + 2);
             out.push_str(n); out.push('\t'); out.push_str(&obs); out.push('\n');
+            so.write_all(out.as_bytes()).unwrap();
         }
-        if out.len() > (1 << 20) { use std::io::Write; std::io::stdout().write_all(out.as_bytes()).unwrap(); out.clear(); }
     }
-    use std::io::Write; std::io::stdout().write_all(out.as_bytes()).unwrap();
+    so.flush().unwrap();
 }
 '''
 
@@ -368,6 +372,7 @@ class CorpusCrate:
         self.strum_dep = strum_dep
         self.line_ranges = {}   # shard -> [(first, last, k)]
         self.failed = {}        # k -> rustc message
+        self.stalled = set()    # shards whose binary was killed because an observer did not terminate
 
     def add(self, k: int, body: str):
         self.mods[k] = body
@@ -470,18 +475,47 @@ class CorpusCrate:
         prof = "release" if self.release else "debug"
         return [os.path.join(TARGET, prof, "%s_%s" % (self.name, m)) for m in self.members]
 
-    def run(self, corpus_path: str, timeout=3000):
+    def run(self, corpus_path: str, timeout=int(os.environ.get("VERIF_OBSERVER_TIMEOUT", "3000"))):
         obs = {}
         died = []
 
         def one(b):
-            r = subprocess.run([b, corpus_path], stdout=subprocess.PIPE, stderr=subprocess.PIPE, text=True, timeout=timeout)
+            # an observer that does not terminate (an iterator that never ends under `count()`, say) must not hang the check:
+            # when no answer line arrives for `stall` seconds the binary is killed, the answers given so far are kept and the
+            # unanswered queries become `no-answer` violations
+            import tempfile, time
+            stall = int(os.environ.get("VERIF_OBSERVER_STALL", "90"))
+            with tempfile.TemporaryFile() as fo, tempfile.TemporaryFile() as fe:
+                p = subprocess.Popen([b, corpus_path], stdout=fo, stderr=fe)
+                t0 = time.time()
+                last_size, last_change = 0, t0
+                rc = None
+                while True:
+                    try:
+                        rc = p.wait(timeout=1.0)
+                        break
+                    except subprocess.TimeoutExpired:
+                        pass
+                    sz = os.fstat(fo.fileno()).st_size
+                    now = time.time()
+                    if sz != last_size:
+                        last_size, last_change = sz, now
+                    if now - last_change > stall or now - t0 > timeout:
+                        p.kill()
+                        p.wait()
+                        rc = "timeout: no answer for %ds (the query after the last answered one does not terminate)" % int(now - last_change)
+                        break
+                fo.seek(0)
+                fe.seek(0)
+                r = subprocess.CompletedProcess([b], rc, fo.read().decode("utf-8", "replace"), fe.read().decode("utf-8", "replace"))
             return b, r
         with ThreadPoolExecutor(max_workers=16) as ex:
             for b, r in ex.map(one, self.binaries()):
                 obs.update(parse_obs(r.stdout))
                 if r.returncode != 0:
                     died.append((b, r.returncode, r.stderr[-2000:]))
+                    if isinstance(r.returncode, str):
+                        self.stalled.add(int(os.path.basename(b).rsplit("_s", 1)[1]))
         return obs, died
 
 
